@@ -566,6 +566,103 @@ def rule_columns(F, R):
     R.floor("R-C08-7/colsize", n, 4, "identity encoders")
 
 
+def rule_drop_shuffle(F, R):
+    """R-C08-10: the drop / shuffle bookkeeping: flag values agree between writers and readers, the permutation is stored and looked up under
+    the shuffled feature's own index, applied to the requested samples, and the iterators read through it"""
+    g = {}
+    for f in F.in_file("src/generator.cpp"):
+        if f.cls == "nano::generator_t":
+            g.setdefault(f.name, []).append(f)
+
+    def const_written(f):
+        out = []
+        for x in f.nodes():
+            a = assignment(x)
+            if a and "m_feature_infos" in pp(a[0]):
+                out.append((pp(a[0]), literal_value(a[1])))
+        return out
+
+    def const_tested(f):
+        out = []
+        for x in f.nodes():
+            if x["k"] == "bin" and x["op"] == "==" and "m_feature_infos" in pp(x["c"][0]):
+                out.append((pp(x["c"][0]), literal_value(x["c"][1])))
+        return out
+    try:
+        drop, undrop, shuffle, unshuffle = g["drop"][0], g["undrop"][0], g["shuffle"][0], g["unshuffle"][0]
+        should = g["should_drop"][0]
+        sh1 = [f for f in g["shuffled"] if len(f.params) == 1][0]
+        sh2 = [f for f in g["shuffled"] if len(f.params) == 2][0]
+    except (KeyError, IndexError):
+        raise AnalysisBroken("generator_t drop/shuffle API not found")
+    wd, ws = const_written(drop), const_written(shuffle)
+    td, ts = const_tested(should), const_tested(sh1)
+    okf = len(wd) == 1 and len(ws) == 1 and len(td) == 1 and len(ts) == 1 and wd[0][1] == td[0][1] and ws[0][1] == ts[0][1] and wd[0][1] != ws[0][1] and \
+        wd[0][0] == "m_feature_infos(%s)" % drop.params[0]["n"] and ws[0][0] == "m_feature_infos(%s)" % shuffle.params[0]["n"] and \
+        td[0][0] == "m_feature_infos(%s)" % should.params[0]["n"] and ts[0][0] == "m_feature_infos(%s)" % sh1.params[0]["n"] and wd[0][1] not in (0, None) and ws[0][1] not in (0, None)
+    R.check(okf, "R-C08-10", "flag values", drop.loc(), "drop writes the value should_drop tests, shuffle the value shuffled() tests, for the given feature",
+            "drop/shuffle flags disagree: drop writes %s, should_drop tests %s; shuffle writes %s, shuffled tests %s" % (wd, td, ws, ts))
+    okr = all([v for _, v in const_written(f)] == [0] and "m_feature_infos.array()" in const_written(f)[0][0] for f in (undrop, unshuffle))
+    okr = okr and any(pp(c) == "m_feature_shuffles.clear()" for c in unshuffle.calls())
+    R.check(okr, "R-C08-10", "undo", undrop.loc(), "undrop / unshuffle reset every feature's flag (and forget the permutations)", "undrop/unshuffle do not reset all flags")
+    # the permutation: arange over all samples, shuffled as a whole, stored under the feature's index
+    fp = shuffle.params[0]["n"]
+    perm = [v for v in shuffle.nodes() if v["k"] == "var" and v.get("c") and pp(v["c"][0]) == "arange(0, datasource().samples())"]
+    oks = len(perm) == 1
+    if oks:
+        pn = perm[0]["n"]
+        shc = [c for c in shuffle.calls(lambda c: callee(c) == "std::shuffle")]
+        st = [x for x in shuffle.nodes() if assignment(x) and pp(assignment(x)[0]) == "m_feature_shuffles[%s]" % fp]
+        oks = len(shc) == 1 and [pp(a) for a in args(shc[0])[:2]] == ["begin(%s)" % pn, "end(%s)" % pn] and len(st) == 1 and pp(assignment(st[0])[1]) == pn
+        if oks:
+            cfg = shuffle.cfg
+            w1, w2 = cfg.where_enclosing(shc[0]), cfg.where_enclosing(st[0])
+            oks = w1 is not None and w2 is not None and (cfg.dominates(w1, w2) or (w1[0] == w2[0] and w1[1] < w2[1]))
+    R.check(bool(oks), "R-C08-10", "permutation stored", shuffle.loc(), "a permutation of all sample indices is stored under the shuffled feature's index",
+            "shuffle() no longer stores a shuffled arange(0, samples) under its feature")
+    fn = sh1.params[0]["n"]
+    fnd = [c for c in sh1.calls(lambda c: callee(c).endswith("::find") and pp(obj(c)) == "m_feature_shuffles")]
+    rets = [pp(r["c"][0]) for r in sh1.nodes() if r["k"] == "return" and r.get("c")]
+    okl = len(fnd) == 1 and pp(args(fnd[0])[0]) == fn and any(t.replace("->", ".").endswith(".second") or ".second" in t for t in rets) and any("tensor_t()" in t or t.endswith("{}") or "tensor_t" in t for t in rets)
+    R.check(okl, "R-C08-10", "permutation lookup", sh1.loc(), "the permutation is looked up under the same feature index (identity when not shuffled)",
+            "shuffled(feature) does not look the permutation up under its feature: %s" % rets)
+    a0, a1 = sh2.params[0]["n"], sh2.params[1]["n"]
+    allv = [v for v in sh2.nodes() if v["k"] == "var" and v.get("c") and pp(v["c"][0]) == "shuffled(%s)" % a0]
+    asg = [x for x in sh2.nodes() if assignment(x) and assignment(x)[2] == "="]
+    lp = [x for x in sh2.nodes() if x["k"] == "for"]
+    okm = len(allv) == 1 and len(asg) == 1 and len(lp) == 1
+    if okm:
+        iv = [v for v in walk(lp[0]["c"][lp[0]["r"].index("init")]) if v["k"] == "var"]
+        i_ = iv[0]["n"] if iv else "?"
+        okm = pp(assignment(asg[0])[1]) == "%s(%s(%s))" % (allv[0]["n"], a1, i_) and pp(assignment(asg[0])[0]).endswith("(%s)" % i_) and \
+            pp(lp[0]["c"][lp[0]["r"].index("cond")]) == "(%s < %s.size())" % (i_, a1)
+    R.check(bool(okm), "R-C08-10", "permutation applied", sh2.loc(), "result(i) = permutation(samples(i)) for every requested sample", "shuffled(feature, samples) no longer maps every requested sample through the permutation")
+    # the sample iterators read through the permutation
+    n = 0
+    for f in F.functions.values():
+        if f.qn == "nano::base_datasource_iterator_t::sample" and f.relfile == "include/nano/datasource/iterator.h":
+            n += 1
+            rets = sorted(pp(r["c"][0]) for r in f.nodes() if r["k"] == "return" and r.get("c"))
+            ifs = [pp(x["c"][x["r"].index("cond")]) for x in f.nodes() if x["k"] == "if"]
+            ok = rets == ["m_samples(m_index)", "m_shuffled_all_samples(m_samples(m_index))"] and ifs == ["(m_shuffled_all_samples.size() == 0)"]
+            R.check(ok, "R-C08-10", "iterator sample", f.loc(), "the stored sample read is permutation(samples(index)) (samples(index) when not shuffled)", "iterator sample() is %s under %s" % (rets, ifs))
+            break
+    its = [f for f in F.functions.values() if f.name == "iterate" and f.cls == "nano::generator_t" and f.relfile == "include/nano/generator.h"]
+    m = 0
+    for f in its[:6]:
+        for _, gl in F.lambdas_in(f):
+            sv = [v for v in gl.nodes() if v["k"] == "var" and v.get("c") and callee(skip(v["c"][0])).endswith("generator_t::shuffled")] if True else []
+            for v in sv:
+                m += 1
+                okp = pp(args(skip(v["c"][0]))[0]) == f.params[1]["n"]
+                ls = [c for c in gl.calls(lambda c: callee(c).split("::")[-1] == "loop_samples")]
+                okp = okp and len(ls) == 1 and pp(args(ls[0])[-2]) == v["n"] and pp(args(ls[0])[-3]) == f.params[0]["n"]
+                R.check(okp, "R-C08-10", "iterate@%s" % gl.loc(), gl.loc(), "the generated feature's own permutation and the requested samples are handed to the sample loop",
+                        "iterate() does not pass (samples, shuffled(ifeature)) to the sample loop")
+    R.floor("R-C08-10/iterate", m, 2, "iterate helpers")
+    R.floor("R-C08-10/iterator", n, 1, "sample iterators")
+
+
 def run(ctx):
     R = ctx.report
     tus = ctx.all_tus() if ctx.thorough else TUS
@@ -582,3 +679,4 @@ def run(ctx):
     rule_pair_rows(F, R)
     rule_encodings(F, R)
     rule_columns(F, R)
+    rule_drop_shuffle(F, R)
